@@ -231,6 +231,11 @@ def merge(reports):
             else:
                 m["extra"][k] = v
     m["caps_hit"] = sorted(set(m["caps_hit"]))
+    if m["outcomes"].get("recheck-differs"):
+        # an execution was not a function of its event list: nothing is concluded from it, but it
+        # is said loudly (stderr) and in the evidence file
+        log("WARNING: %d re-executed event lists gave a different observation (see extra.recheck_differs in the shard reports)" % m["outcomes"]["recheck-differs"])
+        m["caps_hit"].append("determinism recheck differed on %d executions" % m["outcomes"]["recheck-differs"])
     return m
 
 
